@@ -44,6 +44,13 @@ FUNCS = {
                body=[{"k": "if", "c": {"k": "bin", "op": "<", "l": V("m2_x"), "r": N(4)},
                       "t": [{"k": "return", "e": {"k": "call", "f": "f", "args": [V("m2_x")]}}], "e": []},
                      {"k": "return", "e": V("m2_x")}], calls=["f"]),
+    # functions used by the inlining checks (C14) only: no CSem body, compared variant against variant
+    "lp": dict(c="char lp(char n) { char r; r = 0; while (n) { r += 2; n--; } return r; }", params=[("lp_n", 8)], body=None, calls=[]),
+    "er": dict(c="char er(char x) { for (Y = 0; Y < 4; Y++) { if (arr[Y] == x) return Y; } return 9; }", params=[("er_x", 8)], body=None, calls=[]),
+    "sw": dict(c="char sw(char x) { switch (x) { case 0: return 5; case 1: c++; break; default: c = x; } return c; }", params=[("sw_x", 8)], body=None, calls=[]),
+    "n2": dict(c="char n2(char x) { return f(x) + f(f(x)); }", params=[("n2_x", 8)], body=None, calls=["f"]),
+    "n3": dict(c="char n3(char x) { if (x < 3) return lp(x); return n2(x); }", params=[("n3_x", 8)], body=None, calls=["lp", "n2"]),
+    "vd": dict(c="void vd(char x) { if (x) { arr[X] = x; return; } c = 7; }", params=[("vd_x", 8)], body=None, calls=[]),
 }
 
 
@@ -92,4 +99,4 @@ def vt_for(addr, fnames=(), extra=None):
 
 
 def fs_for(fnames):
-    return {f: dict(params=[p for (p, _) in FUNCS[f]["params"]], body=FUNCS[f]["body"]) for f in closure(fnames)}
+    return {f: dict(params=[p for (p, _) in FUNCS[f]["params"]], body=FUNCS[f]["body"] or []) for f in closure(fnames)}
